@@ -296,8 +296,10 @@ def main(argv=None):
     ev = {"property_id": prop, "tier": tier, "seed": seed, "level": level, "coverage": cov,
           "assumptions": assumptions, "wall_s": round(time.time() - t0, 2), "violations": len(vio_lines)}
     if prop != "ALL":
-        with open(os.path.join(VERIF, "evidence", f"{prop}.json"), "w") as fh:
-            json.dump(ev, fh, indent=1)
+        # evidence describes /repo itself; runs against a scratch copy (mutants, REPO=...) must not overwrite it
+        if os.path.realpath(repo_root()) == "/repo":
+            with open(os.path.join(VERIF, "evidence", f"{prop}.json"), "w") as fh:
+                json.dump(ev, fh, indent=1)
     print(f"pyvc {prop} [{tier}]: units={len(results)} paths={cov['paths_explored']} obligations={n_obl} discharged={n_dis} "
           f"bounded={nb_dis}/{nb_obl} known={len(known)} violations={len(vio_lines)} undecided={len(undecided)} "
           f"engine_errors={len(engine_errors)} wall={ev['wall_s']}s exit={exit_code}")
